@@ -20,6 +20,8 @@ class C12(ValsetBase):
             Gen("ValsetGen", "ValsetGen_ladder_sim", "simulate", num=20, depth=18, tiers=("quick",), cap=40),
             # one validator jailed (check or message) and ANOTHER one unjailing in the same / the next block, then silence
             Gen("ValsetGen", "ValsetGen_swap_cover", "bfs", tiers=("quick", "thorough"), timeout=600),
+            # a validator that already has an accepted keep-alive re-sends the SAME version after the minimum was raised above it
+            Gen("ValsetGen", "ValsetGen_version_cover", "bfs", tiers=("quick", "thorough"), timeout=600),
             # stake vectors with the silent validator at 24.5%, exactly 25%, 25.49% and 26.47% of bonded power
             Gen("ValsetGen", "ValsetGen_share_cover", "bfs", tiers=("quick",), timeout=600, cap=160),
             Gen("ValsetGen", "ValsetGen_share_cover", "bfs", tiers=("thorough",), timeout=600),
@@ -65,10 +67,19 @@ class C12(ValsetBase):
         swap_same = [st("InitK", stakes=dom), st("Blocks", n=99, dt=2), st("Unjail", v=3), st("Blocks", n=1, dt=2), st("Jail", v=3), st("Unjail", v=2), st("Blocks", n=50, dt=2)]
         swap_same2 = [st("InitK", stakes=dom), st("Blocks", n=99, dt=2), st("Unjail", v=3), st("Blocks", n=1, dt=2), st("Unjail", v=2), st("Jail", v=3), st("Blocks", n=50, dt=2)]
         swap_next = [st("InitK", stakes=dom), st("Blocks", n=99, dt=2), st("Unjail", v=3), st("Blocks", n=1, dt=2), st("Jail", v=3), st("Blocks", n=1, dt=2), st("Unjail", v=2), st("Blocks", n=50, dt=2)]
+        # regression shapes: the minimum relayer version is raised (directly / by a scheduled requirement applied in BeginBlock) above the
+        # version of a validator whose keep-alive was accepted before; the unchanged version is re-sent right away, ~2000 blocks later,
+        # and the validator must be jailed at the check after its last ACCEPTED keep-alive expired; a relayer that upgrades stays alive
+        ka = lambda v, ver: st("KeepAlive", v=v, ver=ver)
+        ver_direct = [st("InitK", stakes=dom), st("Blocks", n=9, dt=2), ka(2, 1), ka(3, 1), st("SetMinVersion", ver=2, target=0), ka(2, 1), ka(3, 2),
+                      st("Blocks", n=1990, dt=2), ka(2, 1), st("Blocks", n=21, dt=2)]
+        ver_sched = [st("InitK", stakes=dom), st("Blocks", n=9, dt=2), ka(2, 1), st("SetMinVersion", ver=3, target=30), ka(2, 1), st("Blocks", n=25, dt=2),
+                     ka(2, 1), ka(2, 2), st("Blocks", n=1970, dt=2), ka(2, 1), st("Blocks", n=25, dt=2)]
+        versions = [ver_direct, ver_sched]
         # the boundary shapes run on address sets without 0x2c (plain; 0x00/0xff; 32-byte and prefix/suffix addresses)
         out = [frag]
         for aset in range(NUM_ADDR_SETS):
-            for shape in [swap_sweep, swap_same, swap_same2, swap_next] + (shares if aset in (0, 3, 5) else []):
+            for shape in [swap_sweep, swap_same, swap_same2, swap_next] + (shares if aset in (0, 3, 5) else []) + (versions if aset in (0, 1, 3) else []):
                 h = copy.deepcopy(shape)
                 h[0]["args"]["aset"] = aset
                 out.append(h)
